@@ -40,6 +40,7 @@ class Cloner:
         N.at_loop = W.at_loop
         N.maxdepth = W.maxdepth
         N.maxrec = W.maxrec
+        N.recent = W.recent
         N.tags = cp(W.tags)
         N.next_lid = W.next_lid
         N.idtab = {}
